@@ -300,6 +300,15 @@ func (x *Exec) compile(env *Env, e SExpr) Value {
 		if bt.IsTrue() || bt.IsFalse() {
 			return TV{bt, tBool}
 		}
+		if len(e.Trig) > 0 {
+			// explicit multi-pattern: the quantifier is instantiated only where all
+			// the listed terms occur (no index normalisation)
+			var pats []*Term
+			for _, te := range e.Trig {
+				pats = append(pats, x.compileTV(ch, te).T)
+			}
+			return TV{mkQuantPats(op, bound, bt, pats), tBool}
+		}
 		return TV{MkQuant(op, bound, bt), tBool}
 	case *SIndex:
 		base := x.compileTV(env, e.X)
